@@ -189,6 +189,7 @@ sim::Json generate(const std::string& tier, uint64_t seed, uint64_t index) {
     sc.set("driver", "visitor");
     if (label == "LINEAR_CLEAN" || label == "LINEAR_OPTS" || label == "SOLVER_FAILS") label = "GENERAL";
   }
+  else if (rng.chance(0.08)) sc.set("driver", "direct");     // main() written with mp::BackendApp itself instead of the RunBackendApp() helper
   else if (rng.chance(0.07)) {
     // the library flavour of a run: one solver object behind the AMPLS C API, loaded once, then 1..4 rounds of solve + report,
     // each report to the standard <stub>.sol or to a named file.  A round's report is one driver "run" as far as the .sol goes.
